@@ -50,7 +50,8 @@ def voluntary_forfeits(world):
     """Number of decisions by which a player gave up at a showdown: an explicit muck, or tabling fewer cards
     than he holds on the final street (the rest become unknown and the hand cannot be evaluated)."""
     k = 0
-    for name, args in world.decisions:
+    for d in world.decisions:
+        name, args = d[0], d[1]
         if name == 'show_or_muck_hole_cards' and args:
             if args[0] is False:
                 k += 1
